@@ -184,3 +184,6 @@ _EXTRA3 = {
 }
 for _k, _v in _EXTRA3.items():
     CLAIMED[_k]["text"] = CLAIMED[_k]["text"] + _v
+CLAIMED["C09"]["technique"] = ("path-sensitive abstract interpretation + sign domain (R-DIV/R-SQRT/R-TRUTH/R-WIRE/R-GAP) + helper-ordering rule over the composition tree "
+                               "with polyhedra entailment on period expressions and evaluation of _validate_fields on sample settings (R-ORDERED)")
+CLAIMED["C10"]["technique"] = CLAIMED["C10"]["technique"] + " + path-condition classification of withheld identity fields (R-AFFINE) + syntactic dispatch rule on round_values (R-ROUND)"
